@@ -18,6 +18,9 @@ pub struct GenCfg {
     pub loose_op_as_plain: bool,       // F4
     pub loose_rec_as_plain: bool,      // F3
     pub loose_cross_module_poly: bool, // F1
+    /// Let a cycle be closed at a head position (`let a = b; let b = a;`, `rec x x`): whether such
+    /// a program is accepted depends on what else forces its kind; for crash-freedom checks only.
+    pub loose_head_cycles: bool,
     /// Draw names from a very small pool so that shadowing happens often.
     pub shadowing: bool,
     /// Let declaration bodies mention declarations that are still being generated (cycles).
@@ -44,6 +47,7 @@ impl GenCfg {
             loose_op_as_plain: false,
             loose_rec_as_plain: false,
             loose_cross_module_poly: false,
+            loose_head_cycles: false,
             shadowing: false,
             cycles: true,
             max_modules: 3,
@@ -381,6 +385,10 @@ impl<'t> Gen<'t> {
         let referential = matches!(self.prog.binders[b].k, K::S(t, _) if t != Tag::Uri);
         if referential && !at_head {
             self.labels.insert("declaration-cycle");
+            return true;
+        }
+        if referential && self.cfg.loose_head_cycles && self.t.chance(1, 2) {
+            self.labels.insert("head-cycle");
             return true;
         }
         // A cycle with nothing to cut at: only through declarations that can never be cut at
@@ -727,7 +735,7 @@ impl<'t> Gen<'t> {
             let k = self.prog.binders[*b].k.clone();
             if let BinderKind::Rec = self.prog.binders[*b].kind {
                 // `rec x x` has no constructor to give it a kind.
-                if at_head {
+                if at_head && !self.cfg.loose_head_cycles {
                     continue;
                 }
             }
